@@ -6,7 +6,8 @@ from pathlib import Path
 
 sel = sys.argv[1:]
 metas = sorted(glob.glob("/verif/seeded/*/meta.json"))
-wt = "/tmp/wt_regress"
+lane = os.environ.get("REGRESS_LANE", "")
+wt = "/tmp/wt_regress" + lane
 subprocess.run(["git", "-C", "/repo", "worktree", "remove", "--force", wt], capture_output=True)
 subprocess.run(["git", "-C", "/repo", "worktree", "add", "-q", "--detach", wt, "HEAD"], check=True)
 miss = []
@@ -29,7 +30,7 @@ try:
             print(f"{m['id']:14s} PATCH DOES NOT APPLY on HEAD ({ap.stderr.strip()[:80]})")
             continue
         for prop in props:
-            env = dict(os.environ, VERIF_REPO=wt, VERIF_OUT="/tmp/vout_regress")
+            env = dict(os.environ, VERIF_REPO=wt, VERIF_OUT="/tmp/vout_regress" + lane)
             r = subprocess.run(["./check", prop, "--tier", "quick"], cwd="/verif", env=env, capture_output=True, text=True)
             nv = r.stdout.count("VIOLATION property=")
             status = "caught" if r.returncode == 1 and nv else ("MACHINERY" if r.returncode == 2 else "MISSED")
